@@ -117,25 +117,25 @@ fn unseal_exact<const P: usize, const F: usize, const A: usize, const DOT: bool>
 #[kani::proof]
 #[kani::unwind(20)]
 #[kani::stub(core::slice::memchr::memchr, crate::oracle::memchr_at4)]
-fn l3_unseal_exact_p3_f0_a0() {
+pub fn l3_unseal_exact_p3_f0_a0() {
     unseal_exact::<3, 0, 0, true>();
 }
 #[kani::proof]
 #[kani::unwind(20)]
 #[kani::stub(core::slice::memchr::memchr, crate::oracle::memchr_none)]
-fn l3_unseal_exact_p2_f0_a1_nodot() {
+pub fn l3_unseal_exact_p2_f0_a1_nodot() {
     unseal_exact::<2, 0, 1, false>();
 }
 #[kani::proof]
 #[kani::unwind(20)]
 #[kani::stub(core::slice::memchr::memchr, crate::oracle::memchr_at6)]
-fn l3_unseal_exact_p4_f2_a1() {
+pub fn l3_unseal_exact_p4_f2_a1() {
     unseal_exact::<4, 2, 1, false>();
 }
 #[kani::proof]
 #[kani::unwind(20)]
 #[kani::stub(core::slice::memchr::memchr, crate::oracle::memchr_at0)]
-fn l3_unseal_exact_p0_f1_a2() {
+pub fn l3_unseal_exact_p0_f1_a2() {
     unseal_exact::<0, 1, 2, false>();
 }
 
@@ -143,7 +143,7 @@ fn l3_unseal_exact_p0_f1_a2() {
 #[kani::proof]
 #[kani::unwind(20)]
 #[kani::stub(core::slice::memchr::memchr, crate::oracle::memchr_at4)]
-fn l3_unseal_exact_public() {
+pub fn l3_unseal_exact_public() {
     let payload: [u8; 3] = kani::any();
     let footer: [u8; 1] = kani::any();
     let mut s = [0u8; 48];
@@ -195,19 +195,19 @@ fn unit_footer<const WITH_FOOTER: bool, const DOT: bool>() {
 #[kani::proof]
 #[kani::unwind(20)]
 #[kani::stub(core::slice::memchr::memchr, crate::oracle::memchr_at4)]
-fn l3_unit_footer_present() {
+pub fn l3_unit_footer_present() {
     unit_footer::<true, false>();
 }
 #[kani::proof]
 #[kani::unwind(20)]
 #[kani::stub(core::slice::memchr::memchr, crate::oracle::memchr_at4)]
-fn l3_unit_footer_absent_dot() {
+pub fn l3_unit_footer_absent_dot() {
     unit_footer::<false, true>();
 }
 #[kani::proof]
 #[kani::unwind(20)]
 #[kani::stub(core::slice::memchr::memchr, crate::oracle::memchr_none)]
-fn l3_unit_footer_absent_nodot() {
+pub fn l3_unit_footer_absent_nodot() {
     unit_footer::<false, false>();
 }
 
@@ -287,19 +287,19 @@ fn seal_path<const NONCE: usize, const M: usize, const F: usize, const A: usize,
 #[kani::proof]
 #[kani::unwind(20)]
 #[kani::stub(core::slice::memchr::memchr, crate::oracle::memchr_none)]
-fn l3_seal_path_n2_m1_f0_a0_r3() {
+pub fn l3_seal_path_n2_m1_f0_a0_r3() {
     seal_path::<2, 1, 0, 0, 3, true>();
 }
 #[kani::proof]
 #[kani::unwind(20)]
 #[kani::stub(core::slice::memchr::memchr, crate::oracle::memchr_at6)]
-fn l3_seal_path_n0_m2_f2_a1_r4() {
+pub fn l3_seal_path_n0_m2_f2_a1_r4() {
     seal_path::<0, 2, 2, 1, 4, true>();
 }
 #[kani::proof]
 #[kani::unwind(20)]
 #[kani::stub(core::slice::memchr::memchr, crate::oracle::memchr_at7)]
-fn l3_seal_path_n3_m0_f1_a2_r5() {
+pub fn l3_seal_path_n3_m0_f1_a2_r5() {
     seal_path::<3, 0, 1, 2, 5, true>();
 }
 
@@ -307,16 +307,16 @@ fn l3_seal_path_n3_m0_f1_a2_r5() {
 // the seal -> serialise half alone (the chain above is thorough-tier: 0.5 M steps)
 #[kani::proof]
 #[kani::unwind(20)]
-fn l3_seal_serialise_n2_m1_f0_a0_r3() {
+pub fn l3_seal_serialise_n2_m1_f0_a0_r3() {
     seal_path::<2, 1, 0, 0, 3, false>();
 }
 #[kani::proof]
 #[kani::unwind(20)]
-fn l3_seal_serialise_n0_m2_f2_a1_r4() {
+pub fn l3_seal_serialise_n0_m2_f2_a1_r4() {
     seal_path::<0, 2, 2, 1, 4, false>();
 }
 #[kani::proof]
 #[kani::unwind(20)]
-fn l3_seal_serialise_n3_m0_f1_a2_r5() {
+pub fn l3_seal_serialise_n3_m0_f1_a2_r5() {
     seal_path::<3, 0, 1, 2, 5, false>();
 }
